@@ -704,6 +704,7 @@ func (x *Exec) execInstr(in ssa.Instruction, st *State, pc Term) {
 		}
 		x.vals[i] = tp[i.Index]
 	case *ssa.Lookup:
+		x.guardedRead(i.X, false, st, pc, i.Pos())
 		x.execLookup(i, st, pc)
 	case *ssa.MapUpdate:
 		m := x.val(i.Map)
@@ -778,6 +779,9 @@ func (x *Exec) execInstr(in ssa.Instruction, st *State, pc Term) {
 		st.iters[i] = constArray(arraySort(ks, SBool), tFalse)
 		x.vals[i] = x.val(i.X)
 	case *ssa.Next:
+		if r, ok := i.Iter.(*ssa.Range); ok {
+			x.guardedRead(r.X, false, st, pc, r.Pos())
+		}
 		x.execNext(i, st, pc)
 	case *ssa.Select:
 		x.execSelect(i, st, pc)
@@ -917,9 +921,58 @@ func (x *Exec) guardedWrite(base ssa.Value, structName, field string, st *State,
 		hn, hs := x.fieldHeap(pt.Elem(), mi)
 		mu := sel(x.heapGet(st, hn, hs), x.val(base))
 		goal := or(sel(x.ghostGet(st, "locked"), mu), not(x.ghostGet(st, "concurrent")))
+		if x.fc != nil && x.eng.cf.LockReaders[structName+"."+g.Mutex][x.fc.Pkg+"#"+x.fc.Name] {
+			// a declared reader of this mutex never writes what it guards (the single-writer argument of `lockreaders` rests on it)
+			goal = not(x.ghostGet(st, "concurrent"))
+		}
 		x.nsafety++
 		x.vc.oblige(&Obligation{Name: fmt.Sprintf("%s.guarded-write(%s.%s)#%d", x.fnName(), structName, field, x.nsafety), Kind: "lock-discipline", Tags: g.Tags,
 			Goal: goal, PC: pc, Src: "write to " + structName + "." + field + " only while " + g.Mutex + " is held (or before the goroutines start / after they are joined)", Pos: x.posStr(pos)})
+	}
+}
+
+// guardedRead: in a function whose contract says `guardedreads`, a read of a guarded field (or of a map / slice held in one)
+// is an obligation: the guarding mutex is held (or no other goroutine runs)
+func (x *Exec) guardedRead(v ssa.Value, direct bool, st *State, pc Term, pos token.Pos) {
+	if x.fc == nil || !x.fc.GuardedReadsOn {
+		return
+	}
+	var base ssa.Value
+	var structName, field string
+	if direct {
+		fa, ok := v.(*ssa.FieldAddr)
+		if !ok {
+			return
+		}
+		pt, ok := fa.X.Type().Underlying().(*types.Pointer)
+		if !ok {
+			return
+		}
+		named, ok := pt.Elem().(*types.Named)
+		if !ok {
+			return
+		}
+		base, structName, field = fa.X, named.Obj().Name(), pt.Elem().Underlying().(*types.Struct).Field(fa.Field).Name()
+	} else {
+		var ok bool
+		base, structName, field, ok = guardedBase(v)
+		if !ok {
+			return
+		}
+	}
+	for _, g := range x.eng.cf.Guarded {
+		if g.Struct != structName || !g.Fields[field] {
+			continue
+		}
+		pt := base.Type().Underlying().(*types.Pointer)
+		stt := pt.Elem().Underlying().(*types.Struct)
+		mi := fieldIndex(stt, g.Mutex)
+		hn, hs := x.fieldHeap(pt.Elem(), mi)
+		mu := sel(x.heapGet(st, hn, hs), x.val(base))
+		goal := or(sel(x.ghostGet(st, "locked"), mu), not(x.ghostGet(st, "concurrent")))
+		x.nsafety++
+		x.vc.oblige(&Obligation{Name: fmt.Sprintf("%s.guarded-read(%s.%s)#%d", x.fnName(), structName, field, x.nsafety), Kind: "lock-discipline", Tags: x.fc.GuardedReads,
+			Goal: goal, PC: pc, Src: "read of " + structName + "." + field + " only while " + g.Mutex + " is held", Pos: x.posStr(pos)})
 	}
 }
 
@@ -989,6 +1042,7 @@ func (x *Exec) execUnOp(i *ssa.UnOp, st *State, pc Term) {
 		if !isAddrInstr(i.X) {
 			x.nonNil(st, pc, a, i.Pos())
 		}
+		x.guardedRead(i.X, true, st, pc, i.Pos())
 		v := x.loadAddr(st, a)
 		x.vals[i] = x.vc.define(i.Name(), v)
 		if fa, ok := i.X.(*ssa.FieldAddr); ok && a.Kind != aLocal && (v.Sort.isBV() || v.Sort == SBool || v.Sort == SF64 || v.Sort == SStr) {
@@ -1518,7 +1572,7 @@ func (x *Exec) cutContexts(at ssa.Instruction) []edgeState {
 		if !ok {
 			continue
 		}
-		if _, isJump := p.Instrs[len(p.Instrs)-1].(*ssa.Jump); isJump && trivialBlock(p) {
+		if _, isJump := p.Instrs[len(p.Instrs)-1].(*ssa.Jump); isJump && x.trivialBlock(p) {
 			out = append(out, x.leafContexts(p, c, ps, &budget)...)
 		} else {
 			budget--
